@@ -847,9 +847,10 @@ func (w *World) appendWithDiskError(n *Node, pl []byte, pc int) {
 	r := w.R
 	before := w.observe(n.Log)
 	blocks := w.St.NumBlocks()
+	pin := r.Bool("pin", 1, 3)
 	w.St.FailNextAdd("error")
-	e, err := n.Log.Append(w.ctx, pl, &ipfslog.AppendOptions{PointerCount: pc})
-	r.Logf("append n%d with disk error -> err=%v", n.Idx, err != nil)
+	e, err := n.Log.Append(w.ctx, pl, &ipfslog.AppendOptions{PointerCount: pc, Pin: pin})
+	r.Logf("append n%d with disk error (pin=%v) -> err=%v", n.Idx, pin, err != nil)
 	if err == nil {
 		r.Violate("C17:acknowledged-lost-write", "Append returned %v although its block write failed", e.GetHash())
 	}
@@ -911,4 +912,27 @@ func (w *World) doRefused() {
 		r.Violate(w.P.Prop+":denied-append-changed-log", "a refused append changed the log: %s", d)
 	}
 	n.ClockAhead = true
+}
+
+// doRebuild: the application rebuilds its log object from what it holds in memory (entries only,
+// or entries and heads), without a clock: the Lamport clock has to be recovered from the entries.
+func (w *World) doRebuild() {
+	n := w.pickUp("rebuild-node")
+	withHeads := w.R.Choose("rebuild-heads", 2) == 0
+	if n == nil {
+		return
+	}
+	o := w.nodeOpts(n)
+	o.Entries = n.Log.GetEntries()
+	if withHeads {
+		o.Heads = n.Log.Heads().Slice()
+	}
+	n.Log = w.newLog(n.W, o)
+	n.Gen++
+	n.ClockAhead = false
+	w.resetMonitor(n)
+	if len(w.M.Heads(n.Set)) > 1 {
+		w.R.Probe("rebuilt-multi-head-log")
+	}
+	w.R.Logf("rebuild n%d from entries (heads given: %v)", n.Idx, withHeads)
 }
